@@ -133,6 +133,10 @@ FAIL_RE = re.compile(r"^\s*--- FAIL: (\S+)", re.M)
 
 def classify(rc, out, timed_out):
     """-> ('ok'|'violation'|'error', detail)"""
+    m = re.search(r"^VERIF-DEADLOCK-WITNESS (.*)$", out, re.M)
+    if m:
+        # a structural deadlock witness printed by the harness (which then ends the process)
+        return "violation", "deadlock: " + m.group(1)[:600]
     if timed_out:
         return "error", "timeout"
     if rc == 0:
